@@ -21,6 +21,7 @@
 #pragma once
 #include "vstd.hpp"
 #include <new>
+#include <initializer_list>
 
 namespace vs { namespace rcu {
 enum CState : int { ST_ALLOC = 0, ST_CONSTR = 1, ST_DESTR = 2, ST_FREED = 3 };
@@ -198,6 +199,11 @@ struct Elem {
     Elem(long x): v(hook(x)), s(mk(x)) {}  // NOLINT  emplace_*
     Elem(Elem&& o): v(hook(o.v)), s(std::move(o.s)) {}  // push_* (node(T&&))
     Elem(const Elem& o): v(hook(o.v)), s(o.s) {}
+    // recognisable initializer_list constructors: chosen only if somebody LIST-initialises the element (T{args...}); the
+    // driver and the library direct-initialise it (T(args...)), so the sentinel never appears
+    static constexpr long BRACED = 777777;
+    Elem(std::initializer_list<long>): v(BRACED), s("list-initialised") {}  // NOLINT
+    Elem(std::initializer_list<Elem>): v(BRACED), s("list-initialised") {}  // NOLINT
     long read() const
     {
         if (!active()) return v;
@@ -218,6 +224,8 @@ struct TrivElem {
     TrivElem(long x): v(Elem::hook(x)) {}  // NOLINT
     TrivElem(TrivElem&& o): v(Elem::hook(o.v)) {}
     TrivElem(const TrivElem& o): v(Elem::hook(o.v)) {}
+    TrivElem(std::initializer_list<long>): v(Elem::BRACED) {}  // NOLINT
+    TrivElem(std::initializer_list<TrivElem>): v(Elem::BRACED) {}  // NOLINT
     long read() const
     {
         if (!active()) return v;
@@ -286,6 +294,35 @@ class atomic {
     {
         return compare_exchange_strong(e, d, o);
     }
+    // integral read-modify-writes (member templates: instantiated only where the library uses them, so the pointer
+    // atomics of the list are unaffected); logged by vstd::atomic like every other RMW
+    template<class U = T>
+    U fetch_add(U d, ::std::memory_order o = ::std::memory_order_seq_cst) noexcept
+    {
+        U r = a.fetch_add(d, o);
+        vs::rcu::touched(this);
+        return r;
+    }
+    template<class U = T>
+    U fetch_sub(U d, ::std::memory_order o = ::std::memory_order_seq_cst) noexcept
+    {
+        U r = a.fetch_sub(d, o);
+        vs::rcu::touched(this);
+        return r;
+    }
+    template<class U = T>
+    U operator++(int) noexcept { return fetch_add<U>(1); }
+    template<class U = T>
+    U operator--(int) noexcept { return fetch_sub<U>(1); }
+    template<class U = T>
+    U operator++() noexcept { return (U)(fetch_add<U>(1) + 1); }
+    template<class U = T>
+    U operator--() noexcept { return (U)(fetch_sub<U>(1) - 1); }
+    template<class U = T>
+    U operator+=(U d) noexcept { return (U)(fetch_add<U>(d) + d); }
+    template<class U = T>
+    U operator-=(U d) noexcept { return (U)(fetch_sub<U>(d) - d); }
+    bool is_lock_free() const noexcept { return true; }
     T vs_peek() const noexcept { return a.vs_peek(); }
 };
 }  // namespace vstd2
